@@ -325,12 +325,61 @@ static size_t c_scalar_slab(int in, uint8_t *o, size_t cap) {
     memcpy(o, &acc, 8);
     return 8;
 }
+
+/* Shared read-only OBJECTS (not only shared value arrays): a pre-analysed
+ * frame-of-reference descriptor that every thread passes to the encoder, a
+ * built dictionary every thread encodes and looks up with, one encoded PFOR
+ * buffer with its parsed header that every thread reads through.  They are
+ * built once (by thread 0, between the cold start and the rounds) and never
+ * written again by the harness; a call that writes to them races. */
+static varintFORMeta g_sh_for[NIN];
+static varintDict *g_sh_dict[NIN];
+static uint8_t g_sh_pfor[NIN][N * 10 + 64];
+static varintPFORMeta g_sh_pfor_meta[NIN];
+static int g_sh_ready;
+static void build_shared(void) {
+    for (int k = 0; k < NIN; k++) {
+        varintFORAnalyze(IN[k], N, &g_sh_for[k]);
+        g_sh_dict[k] = varintDictCreate();
+        if (g_sh_dict[k]) varintDictBuild(g_sh_dict[k], IN[k], N);
+        varintPFORMeta em; memset(&em, 0, sizeof(em));
+        varintPFOREncode(g_sh_pfor[k], IN[k], N, 95, &em);
+        memset(&g_sh_pfor_meta[k], 0, sizeof(g_sh_pfor_meta[k]));
+        varintPFORReadMeta(g_sh_pfor[k], &g_sh_pfor_meta[k]);
+    }
+    g_sh_ready = 1;
+}
+static size_t c_shared(int in, uint8_t *o, size_t cap) {
+    (void)cap;
+    uint64_t r[12] = {0};
+    if (!g_sh_ready) {
+        return put_u64s(o, 0, r, 12);
+    }
+    uint8_t *buf = o + 4096;
+    size_t w = varintFOREncode(buf, IN[in], N, &g_sh_for[in]); /* pre-analysed: the descriptor is an input */
+    uint64_t h = 1469598103934665603ULL;
+    for (size_t i = 0; i < w; i++) h = (h ^ buf[i]) * 1099511628211ULL;
+    r[0] = w; r[1] = h; r[2] = varintFORSize(&g_sh_for[in]);
+    if (g_sh_dict[in]) {
+        w = varintDictEncodeWithDict(buf, g_sh_dict[in], IN[in], N);
+        h = 1469598103934665603ULL;
+        for (size_t i = 0; i < w; i++) h = (h ^ buf[i]) * 1099511628211ULL;
+        r[3] = w; r[4] = h;
+        r[5] = (uint64_t)varintDictFind(g_sh_dict[in], IN[in][N / 2]);
+        r[6] = varintDictLookup(g_sh_dict[in], 0);
+    }
+    r[7] = varintPFORGetAt(g_sh_pfor[in], 0, &g_sh_pfor_meta[in]);
+    r[8] = varintPFORGetAt(g_sh_pfor[in], N - 1, &g_sh_pfor_meta[in]);
+    r[9] = varintPFORGetAt(g_sh_pfor[in], N / 2, &g_sh_pfor_meta[in]);
+    r[10] = varintPFORSize(&g_sh_pfor_meta[in]);
+    return put_u64s(o, 0, r, 12);
+}
 static const struct { const char *name; callfn fn; } CALLS[] = {
     {"tagged", c_tagged}, {"external", c_ext}, {"chained", c_chained}, {"delta", c_delta}, {"for", c_for},
     {"pfor", c_pfor}, {"group", c_group}, {"dict", c_dict}, {"rle", c_rle}, {"elias", c_elias},
     {"bp128", c_bp}, {"float", c_float}, {"adaptive", c_adaptive}, {"packed", c_packed},
     {"bitstream", c_bitstream}, {"adaptive_big", c_adaptive_big}, {"bitmap_obj", c_bitmap_obj}, {"readers", c_readers},
-    {"scalar_slab", c_scalar_slab}};
+    {"scalar_slab", c_scalar_slab}, {"shared", c_shared}};
 #define NCALLS (sizeof(CALLS) / sizeof(CALLS[0]))
 
 static pthread_barrier_t bar;
@@ -377,12 +426,16 @@ static void *worker(void *arg) {
     /* cold start: no library call has been made in this process yet; every
      * codec's first call is made by all threads simultaneously, on inputs
      * that differ per thread */
-    for (size_t c = 0; c < NCALLS; c++) {
+    for (size_t c = 0; c + 1 < NCALLS; c++) { /* all but "shared" (last), whose objects do not exist yet */
         int in = (t + (int)c) % NIN;
         spin_barrier((long)c + 1);
         log_call(t, ++seq, "Begin", (int)c, in, NULL, 0);
         size_t n = CALLS[c].fn(in, out, 1 << 16);
         log_call(t, ++seq, "End", (int)c, in, out, n);
+    }
+    pthread_barrier_wait(&bar);
+    if (t == 0) {
+        build_shared();
     }
     for (int r = 0; r < rounds; r++) {
         pthread_barrier_wait(&bar); /* release the burst together */
